@@ -66,8 +66,8 @@ func mapAndFilter(r *R) (string, string) {
 	return m, f
 }
 
-var c18Lists = []string{"l1", "il", "sl", "p1.Tags", "pp.Tags", "l2", "nums", "m1.list"}
-var c18Maps = []string{"m1", "m2", "mi", "p1.Meta", "pp.Meta", "m1.inner", "si"}
+var c18Lists = []string{"l1", "il", "sl", "p1.Tags", "pp.Tags", "l2", "nums", "m1.list", "gl", "gm.list"}
+var c18Maps = []string{"m1", "m2", "mi", "p1.Meta", "pp.Meta", "m1.inner", "si", "gm", "gm.inner"}
 
 // listAndFilter picks a list and a filter (chain) that the engine can apply to it: merging values of
 // another element type into a typed slice panics in the engine (C05's subject), which would only cut
@@ -264,12 +264,15 @@ func (propC18) Run(scI interface{}) *Outcome {
 		defer w.LeavePristine()
 		for i, src := range sc.Templates {
 			pe := twig.New()
+			installGlobals(pe)
 			pe.RegisterString("part", sc.Part)
 			pe.RegisterString("t", src)
 			want[i] = observe(nil, func() (string, error) { return pe.Render("t", c18Build(sc.Ctx)) })
 		}
 	}()
 	e := twig.New()
+	globals := installGlobals(e) // engine-wide globals are caller-owned data too
+	globalsBefore := snapshot(globals)
 	if sc.Via == "debug" {
 		e.SetDebug(true)
 	}
@@ -328,6 +331,9 @@ func (propC18) Run(scI interface{}) *Outcome {
 	o.Stats = w.Stat
 	o.SimNS = w.NowNS() - 1_700_000_000e9
 	o.Nontrivial = !sc.Concurrent || w.Switches() > 2
+	if after := snapshot(globals); after != globalsBefore {
+		return fail("caller-data-snapshot", "render modified the engine's global data", diffSnap(globalsBefore, after))
+	}
 	for i := range sc.Templates {
 		if got[i].Key() != want[i].Key() {
 			return fail("pristine-result", fmt.Sprintf("render over shared data differs from render over untouched data (%s vs %s)", got[i].Class, want[i].Class),
